@@ -270,6 +270,21 @@ Theorem source_facts :
   src_convert_separators_default = true /\ src_input_format_pushes_front = true /\
   src_input_format_disables_conversion = true /\ src_sep_from = (45, 46) /\ src_sep_to = 47 /\
   src_max_date_len = 127 /\ src_written_date_format = [37; 89; 47; 37; 109; 47; 37; 100] /\
-  src_format_cache_exact_match = true.
+  src_format_cache_exact_match = true /\
+  src_year_directive_unconditional = true /\ src_year_directive_month = 12 /\ src_year_directive_day = 31.
 Proof. split; [exact default_readers_eq | exact source_switches]. Qed.
 Print Assumptions source_facts.
+
+(* ---- year directives: `Y N` / `year N` / `apply year N` put the current date on 31 December of N
+   whatever it was before (today, --now, another directive, the same year), so a year-less MM/DD
+   read after the directive is that day of year N; `end apply` gives the earlier clock back ---- *)
+Theorem md_after_year_directive : forall st yr m d zm zd s1,
+  valid_ymd yr m d -> 1400 <= yr <= 9999 -> is_sep s1 ->
+  parse_date [] (es_cur (year_directive st yr)) (spell_md_sep m d zm zd s1) = DOk (boost_day_number yr m d).
+Proof. exact parse_md_after_year_directive. Qed.
+Print Assumptions md_after_year_directive.
+
+Theorem end_apply_restores_clock : forall st yr, end_apply (year_directive st yr) = Some st.
+Proof. exact end_apply_year_directive. Qed.
+Print Assumptions end_apply_restores_clock.
+
